@@ -19,7 +19,11 @@ Ord213 == <<1, 0, 2>>
 Ord231 == <<1, 2, 0>>
 Ord312 == <<2, 0, 1>>
 Ord321 == <<2, 1, 0>>
-Tag(g) == LET s == IF g = {} THEN 0 ELSE CHOOSE m \in g : \A x \in g : x <= m IN (Cardinality(g) * 7 + s * 13 + Seed) % Sample
+(* sampling by the rank of the function among all functions (its truth table read as a binary number): every residue class *)
+(* modulo Sample is inhabited, whatever the seed                                                                         *)
+Tag(g) == LET RECURSIVE Rank(_)
+              Rank(h) == IF h = {} THEN 0 ELSE LET a == CHOOSE x \in h : TRUE IN 2 ^ a + Rank(h \ {a})
+          IN ((Rank(g) % 251) * 13 + (Rank(g) \div 251) + Seed) % Sample
 AllF == SUBSET Assign
 Init == f \in {g \in AllF : Tag(g) = 0}
 Next ==
